@@ -48,6 +48,7 @@ class Job:
     per_path_timeout: float = 10.0
     max_paths: int = 10**9
     must_exhaust: bool = False   # quick-tier spaces that are sized to exhaust; not exhausting is reported
+    allow_vacuous: bool = False  # a shard of a family sweep in which the property's precondition may hold for no member
     label: str = ""
 
     def name(self):
@@ -90,6 +91,7 @@ def _worker(job: Job, known_keys: List[str]) -> Dict[str, Any]:
         out["job"] = job.name()
         out["kind"] = "xh"
         out["must_exhaust"] = job.must_exhaust
+        out["allow_vacuous"] = job.allow_vacuous
         if r.counterexample is not None:
             out["counterexample"]["fixed"] = fixed
         return out
@@ -289,7 +291,7 @@ def finish(prop, tier: str, seed: int, results: List[Dict[str, Any]], t0: float,
             pj["error"] = r["error"][:600]
         per_job.append(pj)
         # vacuity guard: a space in which no path reached the final assertion proves nothing
-        if r.get("kind") == "xh" and not r.get("error") and not r.get("counterexample") and r.get("confirmed", 0) == 0:
+        if r.get("kind") == "xh" and not r.get("error") and not r.get("counterexample") and r.get("confirmed", 0) == 0 and not r.get("allow_vacuous"):
             harness_errors.append(f"{r['job']}: vacuous - no path reached the end of the harness ({r.get('ignored')} ignored, {r.get('unknown')} unknown)")
         if r.get("kind") == "xh" and r.get("must_exhaust") and not r.get("exhausted") and not r.get("counterexample") and not r.get("error"):
             pass  # recorded in per_job; stated as inconclusive remainder, not an error
